@@ -286,6 +286,11 @@ func (m *Dense) Mul(a, b Matrix) {
 	aU, aTrans := untransposeExtract(a)
 	bU, bTrans := untransposeExtract(b)
 	m.reuseAsNonZeroed(ar, bc)
+	// Check the receiver itself against both operands before it is
+	// possibly replaced by a workspace; not all of the cases below
+	// perform a check.
+	m.checkOverlapMatrix(aU)
+	m.checkOverlapMatrix(bU)
 	var restore func()
 	if m == aU {
 		m, restore = m.isolatedWorkspace(aU)
